@@ -14,11 +14,13 @@ mod memmodel;
 mod oracle_r;
 mod props_hyb;
 mod props_hyb2;
+mod props_c02;
 mod props_c03;
 mod props_c04;
 mod props_c07;
 mod props_c09;
 mod props_c10;
+mod props_c16;
 mod props_mem;
 mod seq;
 mod simio;
@@ -39,6 +41,8 @@ pub fn all_props() -> Vec<Box<dyn framework::Prop>> {
     v.push(Box::new(props_c04::C04Prop));
     v.push(Box::new(props_c03::C03Prop));
     v.push(Box::new(props_c09::C09Prop));
+    v.push(Box::new(props_c16::C16Prop));
+    v.push(Box::new(props_c02::C02Prop));
     v
 }
 
